@@ -52,6 +52,8 @@ func VpC19Audit() {
 	f2 := vp.Choice("flags2", vp.Param("FLAGS", len(vpC19Flags)))
 	disr := []string{"pass", "deny,status:403", "deny,status:500"}
 	d2 := vp.Choice("disruptive", 3)
+	disr1 := []string{"pass", "deny,status:404"}
+	d1 := vp.Choice("disruptive1", vp.Param("D1", 2)) // the first rule may be disruptive too: the first match decides
 	conf := "SecRuleEngine On\n"
 	if detect {
 		conf = "SecRuleEngine DetectionOnly\n"
@@ -67,9 +69,9 @@ func VpC19Audit() {
 		return flags + "," + rest
 	}
 	// both rules live in phase 2, the phase the parser's default actions (log,auditlog,pass) apply to
-	conf += "SecRule ARGS \"@vprec 0\" \"id:1,phase:2," + join(vpC19Flags[f1].text, "pass") + "\"\n"
+	conf += "SecRule ARGS \"@vprec 0\" \"id:1,phase:2," + join(vpC19Flags[f1].text, disr1[d1]) + "\"\n"
 	conf += "SecRule ARGS \"@vprec 1\" \"id:2,phase:2," + join(vpC19Flags[f2].text, disr[d2]) + "\"\n"
-	key := "c19:" + vpDigit(mode) + vpDigit(ctl) + pat + parts + vpDigit(f1) + vpDigit(f2) + vpDigit(d2)
+	key := "c19:" + vpDigit(mode) + vpDigit(ctl) + pat + parts + vpDigit(f1) + vpDigit(f2) + vpDigit(d2) + vpDigit(d1)
 	if detect {
 		key += "D"
 	}
@@ -95,8 +97,10 @@ func VpC19Audit() {
 	vpEvalLog = vpEvalLog[:0]
 	tx.ProcessRequestHeaders()
 	_, _ = tx.ProcessRequestBody()
-	interrupted := !detect && vpMatchBit[1] && d2 > 0
-	wouldBe := detect && vpMatchBit[1] && d2 > 0
+	first := !detect && vpMatchBit[0] && d1 > 0 // rule 1 interrupts: rule 2 is not evaluated
+	fired2 := vpMatchBit[1] && !first
+	interrupted := first || (!detect && fired2 && d2 > 0)
+	wouldBe := detect && ((vpMatchBit[0] && d1 > 0) || (vpMatchBit[1] && d2 > 0))
 	if !interrupted {
 		tx.AddResponseHeader("Content-Type", "text/plain")
 		tx.ProcessResponseHeaders(code, "HTTP/1.1")
@@ -111,7 +115,12 @@ func VpC19Audit() {
 	}
 	status := vpItoa3(code)
 	if interrupted || wouldBe {
-		status = []string{"", "403", "500"}[d2]
+		// the first disruptive match is the one an engine that is On performs
+		if vpMatchBit[0] && d1 > 0 {
+			status = "404"
+		} else {
+			status = []string{"", "403", "500"}[d2]
+		}
 	}
 	relevant := false
 	if pat == "^5" {
@@ -135,7 +144,7 @@ func VpC19Audit() {
 			wantLog = append(wantLog, 1)
 		}
 	}
-	if vpMatchBit[1] {
+	if fired2 {
 		if vpC19Flags[f2].audit {
 			wantAudit = append(wantAudit, 2)
 		}
